@@ -109,13 +109,42 @@ func (w c08Wrapped) call(m string, v int) (int, error) {
 	panic(m)
 }
 
+// a call on the wrappers that may never return (a lock left held, a copied mutex): bounded wait
+func (w c08Wrapped) callTimed(m string, v int, d time.Duration) (got int, err error, returned bool) {
+	type res struct {
+		g int
+		e error
+	}
+	ch := make(chan res, 1)
+	go func() {
+		defer func() {
+			if recover() != nil {
+				ch <- res{0, fmt.Errorf("panic")}
+			}
+		}()
+		g, e := w.call(m, v)
+		ch <- res{g, e}
+	}()
+	select {
+	case r := <-ch:
+		return r.g, r.e, true
+	case <-time.After(d):
+		return 0, nil, false
+	}
+}
+
 // does m2 enter the wrapped structure while m1 is parked inside it?
 func c08Overlaps(m1, m2 string) bool {
 	g := newGate()
 	g.items = []int{1, 2, 3}
 	w := c08Wrapped{fpgo.NewConcurrentQueue[int](g), fpgo.NewConcurrentStack[int](g)}
 	go w.call(m1, 8)
-	<-g.entered
+	select {
+	case <-g.entered:
+	case <-time.After(time.Second): // m1 never entered the wrapped structure (a fast path answered, or it is blocked)
+		close(g.release)
+		return false
+	}
 	go w.call(m2, 9)
 	over := false
 	select {
@@ -142,7 +171,9 @@ func resOf(err error) string {
 }
 
 // gated replay of the model's counterexample shape: two calls overlapping inside the non-atomic wrapped structure
-func c08Gated(w *ndWriter, m1, m2 string) {
+// preload: items put in before the two overlapping calls (1: the calls race for the LAST item); after the drain the structure is
+// used once more (an insertion followed by a removal must return that value: nothing may remember the race)
+func c08Gated(w *ndWriter, m1, m2 string, preload int) {
 	rec := &recorder{}
 	kind := "queue"
 	if m1 == "Push" || m1 == "Pop" {
@@ -152,13 +183,18 @@ func c08Gated(w *ndWriter, m1, m2 string) {
 	g := newGate()
 	g.gate = false
 	wr := c08Wrapped{fpgo.NewConcurrentQueue[int](g), fpgo.NewConcurrentStack[int](g)}
-	for v := 1; v <= 3; v++ { // preload through the public API
+	for v := 1; v <= preload; v++ { // preload through the public API
 		m := "Offer"
 		if kind == "stack" {
 			m = "Push"
 		}
 		rec.ev(E{"ev": "inv", "thr": "d", "op": opName(m), "v": v, "r": "-"})
-		_, err := wr.call(m, v)
+		_, err, back := wr.callTimed(m, v, 3*time.Second)
+		if !back {
+			rec.ev(E{"ev": "res", "thr": "d", "op": "stuck", "v": 0, "r": "panic"})
+			rec.flush(w)
+			return
+		}
 		rec.ev(E{"ev": "res", "thr": "d", "op": opName(m), "v": v, "r": resOf(err)})
 	}
 	g.gate = true
@@ -174,14 +210,25 @@ func c08Gated(w *ndWriter, m1, m2 string) {
 	}
 	wg.Add(2)
 	go do("c1", m1, 8)
-	<-g.entered // call 1 is parked inside the wrapped structure
+	select {
+	case <-g.entered: // call 1 is parked inside the wrapped structure
+	case <-time.After(time.Second):
+	}
 	go do("c2", m2, 9)
 	select {
 	case <-g.entered: // call 2 got in as well: both are inside
 	case <-time.After(40 * time.Millisecond):
 	}
 	close(g.release)
-	wg.Wait()
+	wdone := make(chan struct{})
+	go func() { wg.Wait(); close(wdone) }()
+	select {
+	case <-wdone:
+	case <-time.After(3 * time.Second): // a call never returned
+		rec.ev(E{"ev": "res", "thr": "d", "op": "stuck", "v": 0, "r": "panic"})
+		rec.flush(w)
+		return
+	}
 	g.gate = false
 	for { // drain and check nothing was lost or duplicated
 		m := "Poll"
@@ -189,11 +236,36 @@ func c08Gated(w *ndWriter, m1, m2 string) {
 			m = "Pop"
 		}
 		rec.ev(E{"ev": "inv", "thr": "d", "op": opName(m), "v": 0, "r": "-"})
-		v, err := wr.call(m, 0)
+		v, err, back := wr.callTimed(m, 0, 3*time.Second)
+		if !back {
+			rec.ev(E{"ev": "res", "thr": "d", "op": "stuck", "v": 0, "r": "panic"})
+			break
+		}
 		rec.ev(E{"ev": "res", "thr": "d", "op": opName(m), "v": v, "r": resOf(err)})
 		if err != nil {
 			break
 		}
+	}
+	rec.ev(E{"ev": "quiesce", "thr": "-", "op": "-", "v": 0, "r": "-"})
+	for i, m := range [][2]string{{"Offer", "Poll"}, {"Put", "Take"}} {
+		if kind == "stack" {
+			m = [2]string{"Push", "Pop"}
+		}
+		val := 70 + i
+		rec.ev(E{"ev": "inv", "thr": "d", "op": opName(m[0]), "v": val, "r": "-"})
+		_, err, back := wr.callTimed(m[0], val, 3*time.Second)
+		if !back {
+			rec.ev(E{"ev": "res", "thr": "d", "op": "stuck", "v": 0, "r": "panic"})
+			break
+		}
+		rec.ev(E{"ev": "res", "thr": "d", "op": opName(m[0]), "v": val, "r": resOf(err)})
+		rec.ev(E{"ev": "inv", "thr": "d", "op": opName(m[1]), "v": 0, "r": "-"})
+		v, err2, back2 := wr.callTimed(m[1], 0, 3*time.Second)
+		if !back2 {
+			rec.ev(E{"ev": "res", "thr": "d", "op": "stuck", "v": 0, "r": "panic"})
+			break
+		}
+		rec.ev(E{"ev": "res", "thr": "d", "op": opName(m[1]), "v": v, "r": resOf(err2)})
 	}
 	rec.ev(E{"ev": "quiesce", "thr": "-", "op": "-", "v": 0, "r": "-"})
 	rec.flush(w)
@@ -267,7 +339,15 @@ func c08Stress(w *ndWriter, seed int64, stack bool, P, Cn, n int) {
 			m = "Pop"
 		}
 		before := len(rec.evs)
-		call("d", m, 0)
+		cd := make(chan struct{})
+		go func() { call("d", m, 0); close(cd) }()
+		select {
+		case <-cd:
+		case <-time.After(3 * time.Second):
+			rec.ev(E{"ev": "res", "thr": "d", "op": "stuck", "v": 0, "r": "panic"})
+			rec.flush(w)
+			return
+		}
 		if rec.evs[before+1]["r"] != "ok" {
 			break
 		}
@@ -488,12 +568,16 @@ func c08Main(args []string) error {
 		seed := int64(envInt("VERIF_SEED", 1))
 		for _, a := range []string{"Put", "Offer", "Take", "Poll"} {
 			for _, b := range []string{"Put", "Offer", "Take", "Poll"} {
-				c08Gated(wf, a, b)
+				for _, pre := range []int{3, 1, 0} {
+					c08Gated(wf, a, b, pre)
+				}
 			}
 		}
 		for _, a := range []string{"Push", "Pop"} {
 			for _, b := range []string{"Push", "Pop"} {
-				c08Gated(wf, a, b)
+				for _, pre := range []int{3, 1, 0} {
+					c08Gated(wf, a, b, pre)
+				}
 			}
 		}
 		for r := 0; r < rounds; r++ {
